@@ -6,7 +6,7 @@ THM = "NextestModel.Thm.C16"
 THM_EXTRA = ["NextestModel.Thm.C16Display"]
 CHECK_MODULES = ["NextestModel.Lemmas.Display", "NextestModel.Model.Display"]
 GEN = ["tables"]
-GEN_GROUPS = ["drainalways"]
+GEN_GROUPS = ["drainalways", "snapshot"]
 TRUSTED = ["model: Model/Capture (accumulator over an abstract pipe); tokio / epoll / kernel pipes are not modelled",
            "model: Model/Display (description heuristics, highlight, trailing newline); strip-ansi-escapes is not modelled (a Piece.strip says which bytes it is handed; in the correspondence its result on every such piece is a table computed with the real crate); bstr lines / lines_with_terminator / trim_end_with / rfind and the regexes ^thread '([^']+)' panicked at  and ^Error:  (multi-line, bytes, Unicode; find_iter non-overlapping) are modelled from their documentation; the failure style's escape sequences are read off the status line",
            "the event-log tap records length + xxh64 of every captured stream per attempt; the expected bytes are recomputed from the scripted pattern"]
